@@ -160,14 +160,9 @@ theorem buildTree_acyclic {clean : Nat → CleanRes} {inside : Nat → Nat → B
 
 /-! ## B5. the tree holds the same paths as `BuildPaths64` -/
 
-/- Full statement aimed at (not proved in this generality):
-   `Fresh T → Acyclic T → (H1) → (H2: owner/splits of closed outrecs refer to closed outrecs) →
-    buildTree … fuel T = some S →
-    (polyTreeToPaths S.tree).Perm (buildPaths clean openPath T).1 ∧ S.openPaths = (buildPaths clean openPath T).2`.
-   Proved below: the two inclusions on the level of outrecs.  Missing for the full permutation: (i) the multiset
-   bookkeeping "tree paths = paths of placed outrecs" (each outrec is placed at most once, which follows from the
-   untouched-clause of `rco_spec`, but the `Perm` invariant was not threaded through), (ii) "placed ⇒ closed",
-   which needs (H2) threaded through `checkSplitOwner`/`ownerLoop`, (iii) the open-path list. -/
+/- The full statement is `tree_paths_perm` below.  Its ingredients are kept as theorems of their own:
+   `tree_paths_complete_partial` / `tree_paths_sound_partial` (the two inclusions on the level of outrecs) and
+   `tree_paths_perm_placed` (the multiset bookkeeping "tree paths = paths of placed outrecs"). -/
 
 /-- B5, completeness (partial): every closed outrec that has points before `BuildTree64` and whose cleaned ring is a
 valid path — i.e. every outrec that contributes a path to `BuildPaths64` — owns a node of the tree holding that
@@ -222,10 +217,8 @@ theorem tree_paths_sound_partial {clean : Nat → CleanRes} {inside : Nat → Na
 /-- B5, multiset invariant (step (1) of the full permutation): after `BuildTree64` the flattened tree
 (`PolyTreeToPaths64`) is a permutation of the paths of the outrecs that own a node, taken in outrec order
 (`placedPaths`): every `AddChild` is matched by exactly one outrec receiving its polypath, no outrec is placed twice,
-and the path of a placed outrec never changes afterwards.  Together with `tree_paths_complete_partial` and
-`tree_paths_sound_partial` (placed ⇔ live ∧ cleaned ring valid, up to closedness) what is still missing for the
-full `tree_paths_perm` is: "placed ⇒ closed" from (H2), the conversion of the `foldl` in `buildPaths` into the same
-`filterMap` over `List.range size`, and the open-path list. -/
+and the path of a placed outrec never changes afterwards.  `tree_paths_perm` combines it with
+`tree_paths_complete_partial`, `tree_paths_sound_partial`, "placed ⇒ closed" (from (H2)) and `buildPaths_filterMap`. -/
 theorem tree_paths_perm_placed {clean : Nat → CleanRes} {inside : Nat → Nat → Bool}
     {openPath : Nat → Option Path} {fuel : Nat} {T : Table} {S : St} (hF : Fresh T) (hA : Acyclic T)
     (h : buildTree clean inside openPath fuel T = some S) :
@@ -234,6 +227,87 @@ theorem tree_paths_perm_placed {clean : Nat → CleanRes} {inside : Nat → Nat 
 
 example : (buildTree exClean exInside exOpen 10 exT).map (fun S => placedPaths S.recs) =
     some [square 0 100, square 10 90, square 20 80] := by decide
+
+/-- B5. `BuildPaths64` written as two `filterMap`s over the outrec table: the closed solution is `clean i` of the
+live closed outrecs whose cleaned ring is a valid path, the open solution is `openPath i` of the live open outrecs,
+both in outrec order. -/
+theorem buildPaths_filterMap (clean : Nat → CleanRes) (openPath : Nat → Option Path) (T : Table) :
+    buildPaths clean openPath T =
+      ((List.range T.size).filterMap (closedPathOf clean T), (List.range T.size).filterMap (openPathOf openPath T)) :=
+  buildPaths_eq clean openPath T
+
+/-- the hypotheses of `tree_paths_perm` on the example table (checked through their decidable versions) -/
+theorem exT_closedWorld : ClosedWorld exT := closedWorldB_sound (by decide)
+theorem exT_h1 : ∀ (i : Nat) (r : OutRec) (p : Path), exT[i]? = some r → r.isOpen = false → r.hasPts = true →
+    exClean i = .path p → (getBounds p).isEmpty = false := h1B_sound (by decide)
+
+/-- **B5, `tree_paths_perm` in full.**  `T` is the outrec table handed to `BuildTree64` (`Fresh`), its owner graph is
+acyclic, (H1) the cleaned ring of every live closed outrec has non-empty bounds (a consequence of C03: a cleaned ring
+has ≥ 3 points that are not all collinear), and (H2 = `ClosedWorld`) `owner` and `splits` of closed outrecs name closed
+outrecs of the table.  Then, whatever the containment test answers and however much fuel was given, if the tree is built
+at all, `PolyTreeToPaths64` of the tree is a permutation of the closed paths `BuildPaths64` returns for the same table
+(nothing lost, nothing duplicated, nothing invented), and the open paths are identical, in the same order.
+The decidable versions of all four hypotheses are evaluated on every real table by the harness (`OWNERSHYP`). -/
+theorem tree_paths_perm {clean : Nat → CleanRes} {inside : Nat → Nat → Bool} {openPath : Nat → Option Path}
+    {fuel : Nat} {T : Table} {S : St} (hF : Fresh T) (hA : Acyclic T)
+    (H1 : ∀ (i : Nat) (r : OutRec) (p : Path), T[i]? = some r → r.isOpen = false → r.hasPts = true →
+      clean i = .path p → (getBounds p).isEmpty = false)
+    (H2 : ClosedWorld T) (h : buildTree clean inside openPath fuel T = some S) :
+    (polyTreeToPaths S.tree).Perm (buildPaths clean openPath T).1 ∧
+    S.openPaths = (buildPaths clean openPath T).2 := by
+  obtain ⟨hI, hX⟩ := buildTree_loopInvX hF hA H2 h
+  rw [buildPaths_eq]
+  refine ⟨?_, hX.2.2.2⟩
+  have := hI.2.2.1
+  unfold PInv at this
+  rw [placedPaths_eq_closed H1 hI hX] at this
+  exact this
+
+example : Fresh exT ∧ Acyclic exT ∧ ClosedWorld exT ∧ ∃ S, buildTree exClean exInside exOpen 10 exT = some S :=
+  ⟨exT_fresh, exT_acyclic, exT_closedWorld, exT_builds⟩
+
+/-- the example with an open outrec: 0 closed, 1 open (with points, never placed, its path is an open solution path) -/
+def exT2 : Table := #[{}, { isOpen := true }, { owner := some 0 }]
+def exOpen2 : Nat → Option Path := fun i => if i = 1 then some [⟨0, 0⟩, ⟨5, 5⟩] else none
+example : (buildTree exClean exInside exOpen2 10 exT2).map (fun S => (polyTreeToPaths S.tree, S.openPaths)) =
+      some (buildPaths exClean exOpen2 exT2) ∧
+    (buildPaths exClean exOpen2 exT2) = ([square 0 100, square 20 80], [[⟨0, 0⟩, ⟨5, 5⟩]]) ∧
+    ClosedWorld exT2 := ⟨by decide, by decide, closedWorldB_sound (by decide)⟩
+
+/-- B5, necessity of (H2): if a closed outrec is owned by an open one, the open outrec receives a tree node, so the
+tree holds a path the Paths execution does not return.  (Real tables satisfy (H2): `OWNERSHYP`.) -/
+def badT : Table := #[{ isOpen := true }, { owner := some 0 }]
+theorem h2_needed :
+    Fresh badT ∧ Acyclic badT ∧ ¬ ClosedWorld badT ∧
+    (buildTree exClean (fun _ _ => true) (fun _ => none) 10 badT).map (fun S => (polyTreeToPaths S.tree).length) = some 2 ∧
+    (buildPaths exClean (fun _ => none) badT).1.length = 1 := by
+  refine ⟨freshB_sound (by decide), ownerRankB_acyclic (rk := fun j => j) (by decide), ?_, by decide, by decide⟩
+  intro h
+  obtain ⟨r, hr, ho⟩ := (h 1 { owner := some 0 } rfl rfl).1 0 rfl
+  have : r = { isOpen := true } := by
+    have e : badT[0]? = some { isOpen := true } := rfl
+    rw [e] at hr
+    simpa using hr.symm
+  subst this
+  simp at ho
+
+/-- B5, corollary (`tree_area` of the design): `PolyTree64::Area()` equals the sum of the areas of the closed paths the
+Paths execution returns (in units of one half, exact). -/
+theorem tree_area_eq_paths_area {clean : Nat → CleanRes} {inside : Nat → Nat → Bool} {openPath : Nat → Option Path}
+    {fuel : Nat} {T : Table} {S : St} (hF : Fresh T) (hA : Acyclic T)
+    (H1 : ∀ (i : Nat) (r : OutRec) (p : Path), T[i]? = some r → r.isOpen = false → r.hasPts = true →
+      clean i = .path p → (getBounds p).isEmpty = false)
+    (H2 : ClosedWorld T) (h : buildTree clean inside openPath fuel T = some S) :
+    S.tree.area2 = ((buildPaths clean openPath T).1.map shoelace2).sum := by
+  have hroot := buildTree_root hF hA h
+  have hp := (tree_paths_perm hF hA H1 H2 h).1
+  rw [← area_perm hp]
+  cases hS : S.tree with
+  | node p ks =>
+    rw [hS] at hroot
+    simp only [Tree.path] at hroot
+    subst hroot
+    exact root_area ks
 
 /-! ## B6. termination (fuel) and acyclicity of the owner graph -/
 
@@ -327,21 +401,156 @@ theorem ownerLoop_sound {clean : Nat → CleanRes} {inside : Nat → Nat → Boo
 example : (ownerLoop exClean exInside 10 exT 2).isSome = true := by decide
 
 
-/-! ### B6(c,d): what termination of `ownerLoop` / `checkSplitOwner` needs
+/-! ### B6(c,d): termination of `CheckSplitOwner`, the owner loop, `SetOwner`, `RecursiveCheckOwners`, `BuildTree64`
 
-Not proved: fuel sufficiency for `ownerLoop` and `checkSplitOwner`.  The hypotheses that a proof needs are
-* `Acyclic T ∧ OwnersInRange T` (for `GetRealOutRec`, `IsValidOwner` and for the owner loop itself: every
-  iteration that does not `break` replaces `outrec->owner` by `outrec->owner->owner`, which strictly shortens the
-  owner chain of `outrec`; acyclicity is preserved by every update, see `checkSplitOwner_sound`/`ownerLoop_sound`);
-* all indices in `splits` in range;
-* for the recursion of `CheckSplitOwner` through real outrecs: nothing — the `recursive_split == outrec` mark bounds
-  it (every real outrec is entered at most once per `outrec`);
-* for the *first* recursive call (the `//#942` line, taken for `!split->pts && split->splits`), which is **not**
-  guarded by the mark: the `splits` relation restricted to outrecs that are without points (now, or after
-  `CheckBounds` disposes them: `clean j = .disposed`) must be well founded,
-  `∃ rank, ∀ j r s, T[j]? = some r → (r.hasPts = false ∨ clean j = .disposed) → s ∈ r.splits → rank s < rank j`.
-  Nothing in `CheckSplitOwner` establishes this locally; `divergence_942` shows that without it the function
-  does not terminate (in the C++: unbounded recursion). -/
+Hypotheses (all four are evaluated on every real table by the harness, `OWNERSHYP`):
+* `Acyclic T`, `OwnersInRange T` — for `GetRealOutRec`, `IsValidOwner`, and for the owner loop itself;
+* `SplitsInRange T` — every entry of every `splits` list is an index of the table;
+* `SplitsWF clean T` — the `splits` relation restricted to outrecs that are without points (now, or after `CheckBounds`
+  disposes them: `clean j = .disposed`) is well founded: `∃ rk, ∀ j r s, T[j]? = some r →
+  (r.hasPts = false ∨ clean j = .disposed) → s ∈ r.splits → rk s < rk j`.  This is what the unguarded `//#942` call
+  needs; `divergence_942` shows that without it the function does not return.
+
+Measures (Lean forces them):
+* `CheckSplitOwner(outrec, L)`: lexicographically (`unmarked T outrec` = number of outrecs with points that are not
+  marked `recursive_split == outrec`, `maxRk rk L` = 1 + largest `rk` of an entry of `L`, `L.length`).  The call guarded
+  by the mark decreases the first component (the mark is set before the call, nothing ever unmarks or revives);
+  the `//#942` call leaves the first component alone and decreases the second (all entries of `split->splits` have
+  smaller `rk` than `split`, which is an entry of `L`); the loop decreases the third.  As one number:
+  `csoFuel R M u ρ ℓ = u·(R+1)·(M+1) + ρ·(M+1) + ℓ + 1` with `R` > every rank and `M` ≥ every `splits` length.
+* the `while (outrec->owner)` loop: the rank of `outrec->owner` in the owner graph (`ownerRank`); every iteration that
+  does not `break` replaces `outrec->owner` by `outrec->owner->owner`; `CheckSplitOwner`/`CheckBounds` change no owner.
+* the first loop of `SetOwner`: the rank of `new_owner->owner`.
+* `RecursiveCheckOwners`: the number of outrecs not on the stack of pending calls; the stacked outrecs are pairwise
+  different because each reaches the current `outrec` by `owner` links and the owner graph is acyclic.  (That the
+  dereference `outrec->owner->polypath->AddChild` is safe is part of the theorem: the owner passed the containment
+  test, so its bounds are not empty, so the recursive call gave it a polypath.) -/
+
+/-- the four hypotheses on the example table -/
+theorem exT_splitsInRange : SplitsInRange exT := splitsInRangeB_sound (by decide)
+theorem exT_splitsWF : SplitsWF exClean exT := splitsRankB_wf (rk := fun _ => 0) (by decide)
+
+/-- a table in which `splits` matters: outrec 2 was split off outrec 1 and later lost its points (it lists 3),
+outrec 3 is a hole of 0 that is only found through `splits`; the point-less outrec 2 is entered by the `//#942` call -/
+def exT3 : Table :=
+  #[{}, { owner := some 0, splits := [2] }, { owner := some 1, hasPts := false, splits := [3] }, { owner := some 1 }]
+def exClean3 (i : Nat) : CleanRes :=
+  match i with
+  | 0 => .path (square 0 100) | 1 => .path (square 10 40) | 3 => .path (square 50 90) | _ => .invalid
+theorem exT3_hyps : Fresh exT3 ∧ Acyclic exT3 ∧ OwnersInRange exT3 ∧ SplitsInRange exT3 ∧ SplitsWF exClean3 exT3 :=
+  ⟨freshB_sound (by decide), ownerRankB_acyclic (rk := fun j => j) (by decide), ownersInRangeB_sound (by decide),
+   splitsInRangeB_sound (by decide), splitsRankB_wf (rk := fun j => 10 - j) (by decide)⟩
+example : (buildTree exClean3 (fun i j => decide (j = 0 ∧ i ≠ 0)) exOpen (treeFuel exT3) exT3).map
+    (fun S => S.recs.toList.map (·.polypath)) = some [some [0], some [0, 0], none, some [0, 1]] := by decide
+
+/-- B6(c). **Fuel sufficiency for `CheckSplitOwner`.**  There is a rank `rk ≤ size` witnessing `SplitsWF` such that
+`csoFuel` of the measure `(unmarked, maxRk rk L, L.length)` is enough fuel for `CheckSplitOwner(i, L)`. -/
+theorem checkSplitOwner_terminates {clean : Nat → CleanRes} {inside : Nat → Nat → Bool} {T : Table} {i : Nat}
+    {L : List Nat} (hA : Acyclic T) (hO : OwnersInRange T) (hS : SplitsInRange T) (hW : SplitsWF clean T)
+    (hi : i < T.size) (hL : ∀ s ∈ L, s < T.size) :
+    ∃ rk : Nat → Nat, SplitsRank clean T rk ∧ (∀ j, rk j < T.size + 1) ∧
+      ∀ f, csoFuel (T.size + 1) (maxSplits T) (unmarked T i) (maxRk rk L) L.length ≤ f →
+        ∃ T' b, checkSplitOwner clean inside f T i L = some (T', b) := by
+  obtain ⟨rk, hT⟩ := TermInv.of_hyps hA hO hS hW
+  refine ⟨rk, hT.wf, hT.rkR, fun f hf => ?_⟩
+  have := checkSplitOwner_total (inside := inside) f T L hT hi hL hf
+  cases h : checkSplitOwner clean inside f T i L with
+  | none => exact absurd h this
+  | some p => exact ⟨p.1, p.2, rfl⟩
+
+example : Acyclic exT3 ∧ OwnersInRange exT3 ∧ SplitsInRange exT3 ∧ SplitsWF exClean3 exT3 ∧ 3 < exT3.size ∧
+    ∀ s ∈ [2], s < exT3.size :=
+  ⟨exT3_hyps.2.1, exT3_hyps.2.2.1, exT3_hyps.2.2.2.1, exT3_hyps.2.2.2.2, by decide, by decide⟩
+
+/-- B6(c), closed form: `csoMax (size+1) (maxSplits T) size` units of fuel suffice for every `CheckSplitOwner` call on a
+`splits` list of the table. -/
+theorem checkSplitOwner_terminates_splits {clean : Nat → CleanRes} {inside : Nat → Nat → Bool} {T : Table} {i o : Nat}
+    {ro : OutRec} (hA : Acyclic T) (hO : OwnersInRange T) (hS : SplitsInRange T) (hW : SplitsWF clean T)
+    (hi : i < T.size) (ho : T[o]? = some ro) :
+    ∀ f, csoMax (T.size + 1) (maxSplits T) T.size ≤ f →
+      ∃ T' b, checkSplitOwner clean inside f T i ro.splits = some (T', b) := by
+  obtain ⟨rk, hT⟩ := TermInv.of_hyps hA hO hS hW
+  intro f hf
+  have hle : csoFuel (T.size + 1) (maxSplits T) (unmarked T i) (maxRk rk ro.splits) ro.splits.length ≤
+      csoMax (T.size + 1) (maxSplits T) T.size :=
+    csoFuel_mono (unmarked_le_size T i) (maxRk_le (fun s _ => hT.rkR s)) (hT.len o ro ho)
+  have := checkSplitOwner_total (inside := inside) f T ro.splits hT hi (fun s hs => hS o ro s ho hs)
+    (Nat.le_trans hle hf)
+  cases h : checkSplitOwner clean inside f T i ro.splits with
+  | none => exact absurd h this
+  | some p => exact ⟨p.1, p.2, rfl⟩
+
+/-- B6(c). **Fuel sufficiency for the `while (outrec->owner)` loop of `RecursiveCheckOwners`**: for every rank function
+of the owner graph, `csoMax + ownerRank + 1` units suffice (`ownerRank` = 1 + rank of `outrec->owner`). -/
+theorem ownerLoop_terminates {clean : Nat → CleanRes} {inside : Nat → Nat → Bool} {T : Table} {i : Nat}
+    {rank : Nat → Nat} (hR : RankOK T rank) (hO : OwnersInRange T) (hS : SplitsInRange T) (hW : SplitsWF clean T)
+    (hi : i < T.size) :
+    ∀ f, csoMax (T.size + 1) (maxSplits T) T.size + ownerRank rank T i + 1 ≤ f →
+      ∃ T', ownerLoop clean inside f T i = some T' := by
+  obtain ⟨rk, hT⟩ := TermInv.of_hyps ⟨rank, hR⟩ hO hS hW
+  intro f hf
+  have := ownerLoop_total (inside := inside) f T hT hi hR hf
+  cases h : ownerLoop clean inside f T i with
+  | none => exact absurd h this
+  | some T' => exact ⟨T', rfl⟩
+
+example : RankOK exT3 (fun j => j) ∧ OwnersInRange exT3 ∧ SplitsInRange exT3 ∧ SplitsWF exClean3 exT3 ∧ 3 < exT3.size :=
+  ⟨ownerRankB_sound (by decide), exT3_hyps.2.2.1, exT3_hyps.2.2.2.1, exT3_hyps.2.2.2.2, by decide⟩
+
+/-- B6(c). **Fuel sufficiency for the first loop of `SetOwner`** (`while (new_owner->owner && !new_owner->owner->pts)`):
+`ownerRank + 1` units suffice; and `SetOwner` as a whole terminates with `size + 2` units. -/
+theorem skipDeadOwners_terminates {T : Table} {no : Nat} {rank : Nat → Nat} (hR : RankOK T rank)
+    (hO : OwnersInRange T) (hno : no < T.size) :
+    ∀ f, ownerRank rank T no + 1 ≤ f → ∃ T1, skipDeadOwners T f no = some T1 := by
+  intro f hf
+  obtain ⟨T1, h, _⟩ := skipDeadOwners_total f T no hR hO hno hf
+  exact ⟨T1, h⟩
+
+theorem setOwner_terminates {T : Table} {i no : Nat} (hA : Acyclic T) (hO : OwnersInRange T) (hi : i < T.size)
+    (hno : no < T.size) : ∃ T', setOwner T (T.size + 2) i no = some T' := by
+  have := setOwner_total hA hO hi hno
+  cases h : setOwner T (T.size + 2) i no with
+  | none => exact absurd h this
+  | some T' => exact ⟨T', rfl⟩
+
+example : RankOK exT (fun j => j) ∧ Acyclic exT ∧ OwnersInRange exT ∧ 0 < exT.size ∧ 2 < exT.size :=
+  ⟨exT_rank, exT_acyclic, exT_inRange, by decide, by decide⟩
+
+/-- B6(c). **Fuel sufficiency for `RecursiveCheckOwners`** from any state the outer loop of `BuildTree64` can be in
+(`GInv` = acyclic owners, bounds computed by `CheckBounds`, the tree matches the polypaths — the invariant of
+`tree_parent_sound`): `treeFuel` units suffice. -/
+theorem recursiveCheckOwners_terminates {clean : Nat → CleanRes} {inside : Nat → Nat → Bool} {S : St} {i : Nat}
+    (hG : GInv clean inside S) (hO : OwnersInRange S.recs) (hS : SplitsInRange S.recs) (hW : SplitsWF clean S.recs)
+    (hi : i < S.recs.size) :
+    ∀ f, treeFuel S.recs ≤ f → ∃ S', recursiveCheckOwners clean inside f S i = some S' := by
+  obtain ⟨rk, hT⟩ := TermInv.of_hyps hG.1 hO hS hW
+  intro f hf
+  obtain ⟨S', h, _⟩ := rco_total (inside := inside) f S i [] hT hG.2.1 hG.2.2 hi List.nodup_nil (by simp)
+    (by unfold treeFuel treeFuelOf at hf; simp only [List.length_nil]; omega)
+  exact ⟨S', h⟩
+
+example : GInv exClean3 exInside { recs := exT3 } ∧ OwnersInRange exT3 ∧ SplitsInRange exT3 ∧ SplitsWF exClean3 exT3 :=
+  ⟨exT3_hyps.1.ginv exT3_hyps.2.1, exT3_hyps.2.2.1, exT3_hyps.2.2.2.1, exT3_hyps.2.2.2.2⟩
+
+/-- B6(c,d). **`checkOwners_terminates`: fuel sufficiency for `BuildTree64`** and hence for every
+`RecursiveCheckOwners`, owner loop and `CheckSplitOwner` it runs: on a fresh table with acyclic in-range owners, in-range
+`splits` and a well-founded `splits` relation on point-less outrecs, `treeFuel T` units of fuel suffice, for every
+containment test and every result of `CleanCollinear`. -/
+theorem checkOwners_terminates {clean : Nat → CleanRes} {inside : Nat → Nat → Bool} {openPath : Nat → Option Path}
+    {T : Table} (hF : Fresh T) (hA : Acyclic T) (hO : OwnersInRange T) (hS : SplitsInRange T)
+    (hW : SplitsWF clean T) :
+    ∀ fuel, treeFuel T ≤ fuel → ∃ S, buildTree clean inside openPath fuel T = some S := by
+  obtain ⟨rk, hT⟩ := TermInv.of_hyps hA hO hS hW
+  intro fuel hf
+  exact buildTree_total hF hT hf
+
+example : Fresh exT3 ∧ Acyclic exT3 ∧ OwnersInRange exT3 ∧ SplitsInRange exT3 ∧ SplitsWF exClean3 exT3 := exT3_hyps
+
+/-- B6(d). `SplitsWF` holds whenever no outrec lists itself, directly or transitively, in `splits`
+(`SplitsAcyclic`: the whole `splits` relation has a rank). -/
+theorem splitsAcyclic_splitsWF {clean : Nat → CleanRes} {T : Table} (h : SplitsAcyclic T) : SplitsWF clean T := h.wf
+
+example : SplitsAcyclic exT3 := splitsAllRankB_sound (rk := fun j => 10 - j) (by decide)
 
 /-- a table in which the points-less outrec 1 lists itself in its `splits` -/
 def loopT : Table := #[{}, { hasPts := false, splits := [1] }]
@@ -359,6 +568,71 @@ theorem divergence_942 (clean : Nat → CleanRes) (inside : Nat → Nat → Bool
     have h1 : loopT[1]? = some { hasPts := false, splits := [1] } := rfl
     simp only [h1, Bool.not_false, List.isEmpty_cons, Bool.and_self, if_true, ih]
 
+/-- B6(d). The well-foundedness hypothesis of `checkOwners_terminates` is exactly what `loopT` violates: the point-less
+outrec 1 lists itself. -/
+theorem loopT_not_splitsWF (clean : Nat → CleanRes) : ¬ SplitsWF clean loopT := by
+  intro ⟨rk, hr⟩
+  have := hr 1 { hasPts := false, splits := [1] } 1 rfl (Or.inl rfl) (by simp)
+  omega
+
+/-- all other hypotheses of `checkOwners_terminates` hold for `loopT`, so `SplitsWF` cannot be dropped -/
+theorem loopT_other_hyps : Fresh loopT ∧ Acyclic loopT ∧ OwnersInRange loopT ∧ SplitsInRange loopT :=
+  ⟨freshB_sound (by decide), ownerRankB_acyclic (rk := fun j => j) (by decide), ownersInRangeB_sound (by decide),
+   splitsInRangeB_sound (by decide)⟩
+
+
+/-! ## D. depth parity -/
+
+/-- D. **`tree_depth_parity`.**  `Geo c p` is any transitive relation ("the ring of outrec `c` lies inside the ring of
+outrec `p`") that the containment test respects (`inside c p = true → Geo c p`).  Then for every outrec `c` that owns
+a node at address `a` (`level a` = `PolyPath::Level()`, `isHole a` = `PolyPath::IsHole()`):
+* `level a ≥ 1` and `IsHole()` ⇔ the level is even; a top-level node is not a hole, and a child is a hole exactly when
+  its parent is not (hole / outer alternation);
+* `c` is nested inside `level a − 1` rings of the tree: for every `k` with `1 ≤ k < level a` the `k`-th owner of `c`
+  owns the ancestor node `k` levels up, and `Geo c` holds for it.
+So `IsHole()` = "nested inside an odd number of ancestors".  That no *other* ring of the tree contains `c` needs
+disjointness of sibling rings, which the model cannot know; it is judged on real trees with exact arithmetic
+(`TREECHECK`: child inside parent, outside siblings, orientation = depth parity).  The model's `level`/`isHole` are
+compared with `PolyPath::Level()`/`IsHole()` of every node of every replayed real tree (`OWNERSLVL`). -/
+theorem tree_depth_parity {clean : Nat → CleanRes} {inside : Nat → Nat → Bool} {openPath : Nat → Option Path}
+    {fuel : Nat} {T : Table} {S : St} (hF : Fresh T) (hA : Acyclic T)
+    (h : buildTree clean inside openPath fuel T = some S)
+    {Geo : Nat → Nat → Prop} (G1 : ∀ c p, inside c p = true → Geo c p) (G2 : ∀ a b c, Geo a b → Geo b c → Geo a c) :
+    ∀ (c : Nat) (r : OutRec) (a : List Nat), S.recs[c]? = some r → r.polypath = some a →
+      1 ≤ level a ∧ isHole a = decide (level a % 2 = 0) ∧ (level a = 1 → isHole a = false) ∧
+      (∀ (p : Nat) (rp : OutRec) (pa : List Nat), r.owner = some p → S.recs[p]? = some rp → rp.polypath = some pa →
+        level a = level pa + 1 ∧ isHole a = !isHole pa) ∧
+      (∀ k, 1 ≤ k → k < level a → ∃ (anc : Nat) (ra : OutRec), ownerSteps S.recs k c = some anc ∧
+        S.recs[anc]? = some ra ∧ ra.polypath = some (a.take (level a - k)) ∧ Geo c anc) := by
+  obtain ⟨_, _, hT⟩ := buildTree_ginv (clean := clean) (inside := inside) hF hA h
+  intro c r a hc ha
+  have hpos : 1 ≤ level a := hT.level_pos hc ha
+  refine ⟨hpos, ?_, ?_, ?_, fun k h1 h2 => hT.ancestors G1 G2 k c r a hc ha h1 h2⟩
+  · rw [isHole_eq]; simp [hpos]
+  · intro h1; rw [isHole_eq]; simp [h1]
+  · intro p rp pa ho hp hppa
+    rcases (hT c r a hc ha).2.2 with ⟨hnone, _⟩ | ⟨p', rp', pa', k, ho', hp', hppa', hak, _⟩
+    · rw [hnone] at ho; simp at ho
+    · rw [ho] at ho'; simp only [Option.some.injEq] at ho'; subst ho'
+      rw [hp] at hp'; simp only [Option.some.injEq] at hp'; subst hp'
+      rw [hppa] at hppa'; simp only [Option.some.injEq] at hppa'; subst hppa'
+      have hne : pa ≠ [] := by
+        intro e
+        have := hT.level_pos hp hppa
+        rw [e] at this
+        simp at this
+      subst hak
+      exact ⟨by simp [level], isHole_child pa k hne⟩
+
+example : Fresh exT ∧ Acyclic exT ∧ (∃ S, buildTree exClean exInside exOpen 10 exT = some S) ∧
+    (∀ c p, exInside c p = true → (fun c p => p < c) c p) ∧
+    (∀ a b c : Nat, (fun c p => p < c) a b → (fun c p => p < c) b c → (fun c p => p < c) a c) :=
+  ⟨exT_fresh, exT_acyclic, exT_builds, fun c p h => by simpa [exInside] using h, fun a b c h1 h2 => by simp only at *; omega⟩
+
+/-- the levels and hole flags of the example tree 0 ⊃ 1 ⊃ 2 -/
+example : (buildTree exClean exInside exOpen 10 exT).map
+    (fun S => S.recs.toList.map (fun r => r.polypath.map (fun a => (level a, isHole a)))) =
+    some [some (1, false), some (2, true), some (3, false), none] := by decide
 
 /-! ## C. `SetOwner` -/
 
